@@ -163,3 +163,36 @@ pub fn check_unique(d: &RawDump) -> Vec<Failure> {
     }
     fs
 }
+
+/// `element_versions` counted per element before / after one statement.
+pub fn check_log_counts(out: &Outcome, pre: &RawDump, post: &RawDump, purge_targets: &BTreeSet<String>) -> Vec<Failure> {
+    let count = |d: &RawDump| -> BTreeMap<String, usize> {
+        let mut m: BTreeMap<String, usize> = BTreeMap::new();
+        for v in &d.vlog { *m.entry(v.0.clone()).or_default() += 1; }
+        m
+    };
+    let (a, b) = (count(pre), count(post));
+    let changed: BTreeSet<String> = match out { Outcome::Done { changes, .. } => changes.iter().map(|c| c.0.clone()).collect(), _ => BTreeSet::new() };
+    let mut fs = Vec::new();
+    let ids: BTreeSet<&String> = a.keys().chain(b.keys()).collect();
+    for id in ids {
+        let before = a.get(id).copied().unwrap_or(0);
+        let after = b.get(id).copied().unwrap_or(0);
+        let want = if changed.contains(id) { if purge_targets.contains(id) { 1 } else { before + 1 } } else { before };
+        if after != want {
+            // every older row must also still be there, unchanged
+            fs.push(Failure { key: if after < want { "version-log-row-lost".into() } else { "version-log-row-count".into() },
+                what: format!("{id}: {before} version row(s) before the statement, {after} after it (changed by it: {})", changed.contains(id)),
+                expected: format!("{want} row(s): one more per commit that changes the element, never fewer outside a committed purge"),
+                observed: format!("{after}; rows now: {:?}", post.vlog.iter().filter(|v| &v.0 == id).map(|v| (v.1, v.2)).collect::<Vec<_>>()) });
+        } else if !purge_targets.contains(id) || !changed.contains(id) {
+            let old: Vec<(u64, u64, &String)> = pre.vlog.iter().filter(|v| &v.0 == id).map(|v| (v.1, v.2, &v.4)).collect();
+            let now: Vec<(u64, u64, &String)> = post.vlog.iter().filter(|v| &v.0 == id).map(|v| (v.1, v.2, &v.4)).collect();
+            if now.len() < old.len() || now[..old.len()] != old[..] {
+                fs.push(Failure { key: "version-log-row-rewritten".into(), what: format!("{id}: an existing version row changed (version, sequence or content)"),
+                    expected: format!("{:?}", old.iter().map(|r| (r.0, r.1)).collect::<Vec<_>>()), observed: format!("{:?}", now.iter().map(|r| (r.0, r.1)).collect::<Vec<_>>()) });
+            }
+        }
+    }
+    fs
+}
